@@ -41,12 +41,16 @@ let show_out = function
   | ELost id -> Some ("?" ^ string_of_n id)
   | ENone -> Some "none"
   | EPending -> Some "pend"
-  | EErr c -> Some ("err:" ^ string_of_n c)
+  | EErr c -> Some ("err:" ^ string_of_n c ^ "L/close:" ^ string_of_n c)
   | _ -> None
 let code_of s = if s = "-" then None else Some (n_of_string s)
 let parse_out tok =
   if tok = "none" then ENone else if tok = "pend" then EPending
-  else if String.length tok > 4 && String.sub tok 0 4 = "err:" then EErr (num tok 4)
+  else if String.length tok > 4 && String.sub tok 0 4 = "err:" then
+    (* err:<code><variant letter>/close:<code> *)
+    let j = ref 4 in
+    while !j < String.length tok && tok.[!j] >= '0' && tok.[!j] <= '9' do incr j done;
+    EErr (n_of_string (String.sub tok 4 (!j - 4)))
   else match tok.[0] with
   | 'w' -> EWire (num tok 1)
   | '+' -> EShown (num tok 1)
@@ -56,7 +60,10 @@ let parse_out tok =
             | _ -> failwith "bad rejected")
   | _ -> failwith ("bad output " ^ tok)
 let verdict t = match drain_fail_at astate0 t N0 with None -> "drain-ok" | Some i -> "drain-bad@" ^ string_of_n i
-let handle ws = match ws with
+let base f = match String.index_opt f '.' with Some i -> String.sub f 0 i | None -> f
+let handle ws =
+  let ws = (match ws with f :: r -> base f :: r | [] -> []) in
+  match ws with
   | ["drain"; ops] ->
       let ops = parse_ops ops in
       let w = ref world0 in
